@@ -358,3 +358,25 @@ def eip712_digest(types, primary, domain, message):
     ds = eip712_hash_struct(types, "EIP712Domain", domain)
     mh = eip712_hash_struct(types, primary, message)
     return keccak256(b"\x19\x01" + ds + mh), ds, mh
+
+
+def extreme_phrases(rng, wl, n_words=24):
+    """valid phrases made of the longest (8-letter) and of the shortest (3-letter) list words: extreme canonical text lengths"""
+    import hashlib
+    widx = {w: i for i, w in enumerate(wl)}
+    out = []
+    for pool in ([w for w in wl if len(w) == 8], [w for w in wl if len(w) == 3]):
+        for _ in range(3):
+            ws = [rng.choice(pool) for _ in range(n_words - 1)]
+            v = 0
+            for w in ws:
+                v = (v << 11) | widx[w]
+            ent_bits, cs = n_words * 11 * 32 // 33, n_words * 11 // 33
+            cands = []
+            for free in range(1 << (11 - cs)):
+                ent = ((v << (11 - cs)) | free).to_bytes(ent_bits // 8, "big")
+                last = (free << cs) | (hashlib.sha256(ent).digest()[0] >> (8 - cs))
+                cands.append(wl[last])
+            cands.sort(key=len, reverse=(pool[0].__len__() == 8))
+            out.append(" ".join(ws + [cands[0]]))
+    return out
